@@ -89,6 +89,10 @@ def gen(chk):
                 # one more node than allowed: append 32 bytes to the control block of the witness
                 raw = bytes.fromhex(c["spend"]); 
                 sess.append(("spend id=t129 tx=%s txin=%s flags=%d cmds=c" % (over_long(raw).hex().encode().hex(), c["fund"].encode().hex(), 0x1FFFDF)))
+    # control blocks of illegal sizes (refused before any hashing): 0, 1, 2, 32, 34, 64, 66 bytes
+    for n in (0, 1, 2, 32, 34, 64, 66):
+        c = S.build(rng, "p2tr-path", wn=1, ht=0, mutate="ctlsize:%d" % n)
+        sess.append("spend id=t999_size%d tx=%s txin=%s flags=%d cmds=c" % (n, c["spend"].encode().hex(), c["fund"].encode().hex(), 0x1FFFDF))
     return {"commitments": cases, "sessions": sess}
 
 def over_long(raw):
